@@ -441,10 +441,11 @@ const KnownTailPage = "evict-drops-partial-tail-page"
 func (s *sim) rearm() {
 	page, partial, cached, deferred := s.trie.VerifTailPage()
 	if partial && !cached && !deferred {
-		if !(s.d.watchOn && s.d.watchPg == page) {
-			s.d.watchOn, s.d.watchPg, s.d.watchHit = true, page, false
+		// (re)start the watch: the page is out of the cache NOW, whatever was loaded before
+		if !(s.d.watchOn && s.d.watchPg == page && !s.d.watchHit) {
 			s.stat("known_tail_page_evicted", 1)
 		}
+		s.d.watchOn, s.d.watchPg, s.d.watchHit = true, page, false
 	} else {
 		s.d.watchOn = false
 	}
@@ -975,7 +976,7 @@ func (Engine) Run(t *testing.T, prop, tier string, tape *kernel.Tape, keepLog bo
 	res.Digest = s.log.Digest()
 	res.Stats = s.stats
 	res.Violation = s.viol
-	if s.viol != nil && os.Getenv("TRIESIM_SURVEY") != "" {
+	if s.viol != nil && os.Getenv("TRIESIM_SURVEY") != "" && (s.viol.Key != "" || os.Getenv("TRIESIM_SURVEY") == "all") {
 		// analysis aid: keep going after a violation and only count its class
 		res.Violation = nil
 		res.Stats["survey_"+s.viol.Oracle+"_"+s.viol.Key] = 1
